@@ -96,7 +96,7 @@ partial def normProgH (e : Expr) : Expr :=
 partial def destructAnds (g : MVarId) : MetaM MVarId := g.withContext do
   for d in ← getLCtx do
     if d.isImplementationDetail then continue
-    let t := (← instantiateMVars d.type).consumeMData.headBeta
+    let t ← whnfR (← instantiateMVars d.type).consumeMData.headBeta
     if t.isAppOfArity ``And 2 then
       let #[sub] ← g.cases d.fvarId | throwError "destructAnds: unexpected"
       return ← destructAnds sub.mvarId
